@@ -14,7 +14,7 @@ use proptest::prelude::*;
 use serde::{Deserialize, Serialize};
 use std::collections::{BTreeMap, BTreeSet};
 use vcore::amounts::pick;
-use vcore::exp::{is_expired, ExpSpec};
+use vcore::exp::{is_expired_ns as is_expired, ExpSpec};
 use vcore::{CaseCtx, Family, PropSpec, Tier, Violation};
 
 pub const N_ACTORS: usize = 7;
@@ -115,9 +115,18 @@ pub enum Target {
     Apt(u16),
 }
 
+/// requested expiry of a proposal
+#[derive(Clone, Copy, Debug, Serialize, Deserialize, PartialEq)]
+pub enum Latest {
+    None,
+    Spec(ExpSpec),
+    /// exactly the end of the maximum voting period, plus k blocks (height periods) / k nanoseconds (time periods)
+    AtMax(i8),
+}
+
 #[derive(Clone, Debug, Serialize, Deserialize, PartialEq)]
 pub enum Op {
-    Propose { by: By, msgs: Vec<PMsg>, latest: Option<ExpSpec>, pay: Pay },
+    Propose { by: By, msgs: Vec<PMsg>, latest: Latest, pay: Pay },
     Vote { by: By, prop: Target, vote: u8 },
     Execute { by: By, prop: Target },
     Close { by: By, prop: Target },
@@ -178,12 +187,13 @@ fn dur() -> BoxedStrategy<Dur> {
     prop_oneof![(1u16..12).prop_map(Dur::Height), (1u32..120).prop_map(Dur::Time)].boxed()
 }
 
-fn latest() -> BoxedStrategy<Option<ExpSpec>> {
+fn latest() -> BoxedStrategy<Latest> {
     prop_oneof![
-        8 => Just(None),
-        2 => (-2i32..14).prop_map(|d| Some(ExpSpec::Height(d))),
-        2 => (-10i64..150).prop_map(|d| Some(ExpSpec::Time(d))),
-        1 => Just(Some(ExpSpec::Never)),
+        8 => Just(Latest::None),
+        2 => (-2i32..14).prop_map(|d| Latest::Spec(ExpSpec::Height(d))),
+        2 => (-10i64..150).prop_map(|d| Latest::Spec(ExpSpec::Time(d))),
+        1 => Just(Latest::Spec(ExpSpec::Never)),
+        3 => (-2i8..=2).prop_map(Latest::AtMax),
     ]
     .boxed()
 }
@@ -235,12 +245,18 @@ fn op(prop: &str) -> BoxedStrategy<Op> {
     let close = (by_member(), target()).prop_map(|(by, prop)| Op::Close { by, prop }).boxed();
     let advance = (0u8..4, 0u16..40).prop_map(|(blocks, secs)| Op::Advance { blocks, secs }).boxed();
     let to_expiry = (any::<u16>(), -2i8..=2).prop_map(|(prop, delta)| Op::ToExpiry { prop, delta }).boxed();
-    let group = (proptest::collection::vec((actor(), weight()), 0..3), proptest::collection::vec(actor(), 0..2)).prop_map(|(add, remove)| Op::GroupUpdate { add, remove }).boxed();
+    // remove lists may name the same address several times (and addresses that are also added)
+    let removes = prop_oneof![
+        6 => proptest::collection::vec(actor(), 0..3),
+        2 => (actor(), 2usize..4).prop_map(|(a, n)| vec![a; n]),
+        1 => (actor(), actor()).prop_map(|(a, b)| vec![a, b, a]),
+    ];
+    let group = (proptest::collection::vec((actor(), weight()), 0..4), removes).prop_map(|(add, remove)| Op::GroupUpdate { add, remove }).boxed();
     let fault = any::<bool>().prop_map(|on| Op::Fault { on }).boxed();
     let fund = (0u32..200).prop_map(|amt| Op::Fund { amt }).boxed();
     match prop {
         "C03" => prop_oneof![6 => propose, 14 => vote, 4 => execute, 4 => close, 3 => advance, 4 => to_expiry].boxed(),
-        "C05" => prop_oneof![6 => propose, 10 => vote, 9 => execute, 4 => close, 2 => advance, 3 => to_expiry, 3 => fault, 2 => fund].boxed(),
+        "C05" => prop_oneof![6 => propose, 10 => vote, 9 => execute, 4 => close, 2 => advance, 3 => to_expiry, 3 => fault, 2 => fund, 2 => group].boxed(),
         "C06" => prop_oneof![6 => propose, 12 => vote, 2 => execute, 1 => close, 4 => advance, 2 => to_expiry, 8 => group].boxed(),
         _ => prop_oneof![8 => propose, 10 => vote, 6 => execute, 6 => close, 2 => advance, 4 => to_expiry].boxed(),
     }
@@ -290,7 +306,7 @@ pub fn mcase_strategy(prop: &str, tier: Tier) -> BoxedStrategy<MCase> {
             // a proposal followed by a burst of votes from addresses that may still vote
             let campaign = (by_member(), pmsgs(&prop_s), pay(&prop_s), proptest::collection::vec((any::<u16>(), prop_oneof![6 => Just(0u8), 2 => Just(1u8), 1 => Just(2u8), 1 => Just(3u8)]), 1..5))
                 .prop_map(|(by, msgs, pay, votes)| {
-                    let mut g = vec![Op::Propose { by, msgs, latest: None, pay: if pay == Pay::None { Pay::None } else { Pay::Exact } }];
+                    let mut g = vec![Op::Propose { by, msgs, latest: Latest::None, pay: if pay == Pay::None { Pay::None } else { Pay::Exact } }];
                     for (k, vote) in votes {
                         g.push(Op::Vote { by: By::Fresh(k), prop: Target::Any(u16::MAX), vote });
                     }
@@ -449,7 +465,7 @@ impl World {
         self.app.block_info().height
     }
     fn time(&self) -> u64 {
-        self.app.block_info().time.seconds()
+        self.app.block_info().time.nanos()
     }
 
     fn native(&self, a: &Addr, denom: &str) -> u128 {
@@ -559,8 +575,7 @@ fn status_code(s: Status) -> u8 {
 
 pub fn run_mcase(prop: &str, case: &MCase, ctx: &mut CaseCtx) -> Result<(), Violation> {
     let mut app = App::default();
-    // whole seconds only: the interpreter reasons about time in seconds
-    app.update_block(|b| b.time = cosmwasm_std::Timestamp::from_seconds(b.time.seconds()));
+    // block time keeps its sub-second part; the interpreter reasons in nanoseconds
     let actors: Vec<Addr> = (0..N_ACTORS).map(|i| app.api().addr_make(&format!("actor{i}"))).collect();
     let faucet = app.api().addr_make("faucet");
     let admin = app.api().addr_make("group-admin");
@@ -842,12 +857,18 @@ pub fn run_mcase(prop: &str, case: &MCase, ctx: &mut CaseCtx) -> Result<(), Viol
                             }
                         }
                         Some(Expiration::AtTime(t)) => {
-                            let target = (t.seconds() as i128 - *delta as i128).max(time as i128) as u64;
+                            // delta counts in seconds for |delta| = 2, in single nanoseconds for |delta| = 1
+                            let off: i128 = match *delta {
+                                2 => 1_000_000_000,
+                                -2 => -1_000_000_000,
+                                d => d as i128,
+                            };
+                            let target = (t.nanos() as i128 - off).max(time as i128) as u64;
                             let d = target - time;
                             if d > 0 {
                                 w.app.update_block(|bl| {
                                     bl.height += 1;
-                                    bl.time = bl.time.plus_seconds(d);
+                                    bl.time = bl.time.plus_nanos(d);
                                 });
                             }
                         }
@@ -906,7 +927,15 @@ pub fn run_mcase(prop: &str, case: &MCase, ctx: &mut CaseCtx) -> Result<(), Viol
                         PMsg::ReClose(r) => WasmMsg::Execute { contract_addr: w.multisig.to_string(), msg: to_json_binary(&cw3_fixed_multisig::msg::ExecuteMsg::Close { proposal_id: resolve_ref(r) }).unwrap(), funds: vec![] }.into(),
                     })
                     .collect();
-                let latest_e = latest.map(|e| e.resolve(height, time));
+                let latest_e = match latest {
+                    Latest::None => None,
+                    Latest::Spec(e) => Some(e.resolve_ns(height, time)),
+                    // the end of the maximum voting period, +k blocks resp. +k nanoseconds
+                    Latest::AtMax(k) => Some(match case.period {
+                        Dur::Height(n) => Expiration::AtHeight((height as i128 + n as i128 + *k as i128).max(0) as u64),
+                        Dur::Time(secs) => Expiration::AtTime(cosmwasm_std::Timestamp::from_nanos((time as i128 + secs as i128 * 1_000_000_000 + *k as i128).max(0) as u64)),
+                    }),
+                };
                 let mut funds: Vec<Coin> = vec![];
                 if let Some(d) = w.deposit {
                     if d.cw20 {
@@ -1309,7 +1338,7 @@ fn oracle_c05(w: &World, pre: &Obs, post: &Obs, done: &Done, models: &mut [PMode
         let o = &m.first;
         let max = match period {
             Duration::Height(n) => Expiration::AtHeight(call_h + n),
-            Duration::Time(s) => Expiration::AtTime(cosmwasm_std::Timestamp::from_seconds(call_t + s)),
+            Duration::Time(s) => Expiration::AtTime(cosmwasm_std::Timestamp::from_nanos(call_t + s * 1_000_000_000)),
         };
         let okk = match (&o.expires, &max) {
             (Expiration::AtHeight(a), Expiration::AtHeight(b)) => a <= b,
@@ -1746,11 +1775,12 @@ pub fn decode_mcase(prop: &str, u: &mut arbitrary::Unstructured) -> MCase {
                     "C15" => (0..arb_below(u, 2)).map(|_| PMsg::Record).collect(),
                     _ => vec![],
                 };
-                let latest = match arb_below(u, 6) {
-                    0 => Some(ExpSpec::Height(u.int_in_range(-2i32..=13).unwrap_or(0))),
-                    1 => Some(ExpSpec::Time(u.int_in_range(-10i64..=149).unwrap_or(0))),
-                    2 => Some(ExpSpec::Never),
-                    _ => None,
+                let latest = match arb_below(u, 8) {
+                    0 => Latest::Spec(ExpSpec::Height(u.int_in_range(-2i32..=13).unwrap_or(0))),
+                    1 => Latest::Spec(ExpSpec::Time(u.int_in_range(-10i64..=149).unwrap_or(0))),
+                    2 => Latest::Spec(ExpSpec::Never),
+                    3 => Latest::AtMax(arb_below(u, 5) as i8 - 2),
+                    _ => Latest::None,
                 };
                 let pay = if prop == "C15" { [Pay::Exact, Pay::Exact, Pay::Exact, Pay::None, Pay::Short, Pay::Excess, Pay::WrongDenom, Pay::ExtraCoin][arb_below(u, 8)] } else { Pay::None };
                 Op::Propose { by: d_by(u), msgs, latest, pay }
@@ -1762,9 +1792,11 @@ pub fn decode_mcase(prop: &str, u: &mut arbitrary::Unstructured) -> MCase {
             12 => Op::ToExpiry { prop: u.arbitrary().unwrap_or(0), delta: arb_below(u, 5) as i8 - 2 },
             13 => {
                 if prop == "C06" || arb_bool(u, 1, 4) {
-                    let na = arb_below(u, 3);
-                    let nr = arb_below(u, 2);
-                    Op::GroupUpdate { add: (0..na).map(|_| (d_actor(u), d_weight(u))).collect(), remove: (0..nr).map(|_| d_actor(u)).collect() }
+                    let na = arb_below(u, 4);
+                    let nr = arb_below(u, 4);
+                    let dup = arb_bool(u, 1, 4);
+                    let first = d_actor(u);
+                    Op::GroupUpdate { add: (0..na).map(|_| (d_actor(u), d_weight(u))).collect(), remove: (0..nr).map(|i| if dup || i == 0 { first } else { d_actor(u) }).collect() }
                 } else {
                     Op::Advance { blocks: 1, secs: 5 }
                 }
